@@ -37,6 +37,11 @@ PROGRAMS = {
                                                                       "r": lambda ca, cb, cc: ca and cb and cc}),
     "scalar-operands": ("r = a * 2.0 + np.array([1.0, 2.0]) + b", {"r": lambda ca, cb, cc: ca and cb}),
     "inplace-where": ("w = a * 1.0\nmg.add(b, c, out=w, where=M)\nr = w * w", {"w": lambda ca, cb, cc: ca, "r": lambda ca, cb, cc: ca}),
+    # an explicit constant= on an in-place form: the target keeps its own flag
+    "out-force-true": ("w = a * 1.0\nmg.multiply(b, c, out=w, constant=True)\nr = w + a", {"w": lambda ca, cb, cc: ca, "r": lambda ca, cb, cc: ca}),
+    "out-force-false": ("w = a * 1.0\nmg.multiply(b, c, out=w, constant=False)\nr = w + a", {"w": lambda ca, cb, cc: ca, "r": lambda ca, cb, cc: ca}),
+    "out-where-force-true": ("w = a * 1.0\nmg.add(b, c, out=w, where=M, constant=True)\nr = w * w", {"w": lambda ca, cb, cc: ca, "r": lambda ca, cb, cc: ca}),
+    "out-where-force-false": ("w = a * 1.0\nmg.add(b, c, out=w, where=M, constant=False)\nr = w * w", {"w": lambda ca, cb, cc: ca, "r": lambda ca, cb, cc: ca}),
 }
 # leaves whose gradient is blocked because the only path to r runs through a tensor that is constant (forced, or an
 # in-place target that keeps its constant flag): constants transmit nothing
@@ -47,6 +52,10 @@ BLOCKED = {
     "setitem": lambda ca, cb, cc: {"c"} if (ca and cb) else set(),
     "out": lambda ca, cb, cc: {"b", "c"} if ca else set(),
     "inplace-where": lambda ca, cb, cc: {"b", "c"} if ca else set(),
+    "out-force-true": lambda ca, cb, cc: {"b", "c"} if ca else set(),
+    "out-force-false": lambda ca, cb, cc: {"b", "c"} if ca else set(),
+    "out-where-force-true": lambda ca, cb, cc: {"b", "c"} if ca else set(),
+    "out-where-force-false": lambda ca, cb, cc: {"b", "c"} if ca else set(),
 }
 _SUB = {}
 
@@ -199,6 +208,8 @@ def _replay(spec, body_src):
         "method-force": "{'r': cc}", "concat": "{'r': ca and cb and cc}", "einsum-force": "{'r': False}",
         "view-of-const-then-op": "{'v': ca, 'w': ca and cb, 'r': ca and cb and cc}", "scalar-operands": "{'r': ca and cb}",
         "inplace-where": "{'w': ca, 'r': ca}",
+        "out-force-true": "{'w': ca, 'r': ca}", "out-force-false": "{'w': ca, 'r': ca}", "out-where-force-true": "{'w': ca, 'r': ca}",
+        "out-where-force-false": "{'w': ca, 'r': ca}",
     }[spec["prog"]]
     src = '''import sys, itertools
 import numpy as np
